@@ -11,7 +11,12 @@ import (
 	"encoding/hex"
 	"fmt"
 	"math/big"
+	"sync"
+	"sync/atomic"
+	"time"
 
+	"github.com/gauss-project/aurorafs/pkg/bmt"
+	"github.com/gauss-project/aurorafs/pkg/bmtpool"
 	"github.com/gauss-project/aurorafs/pkg/boson"
 	"github.com/gauss-project/aurorafs/pkg/cac"
 	"golang.org/x/crypto/sha3"
@@ -302,6 +307,108 @@ func doValid(jc jcase, what string) {
 	run.AddCase(coq, jc, fmt.Sprintf("valid|%s|%s|%d|%d|%d|%v", jc.Addr, jc.P.Prefix, jc.P.Seed, jc.P.N, jc.P.ZTail, jc.P.Patches), inRange)
 }
 
+// ---------------------------------------------------------------- pool pressure
+// Many goroutines create and validate chunks while all but `left` trees of the shared bmtpool are
+// held by "other users": every hasher call of cac then queues for the same one or two trees, so
+// a tree that is handed back before its hash is complete is immediately reused by someone else.
+// Every answer is compared with the independent oracle; a goroutine that does not come back is a
+// hang. The held trees are returned afterwards. Runs last: a broken caller leaves the pool dirty.
+type jpressure struct {
+	Workers int    `json:"workers"`
+	Left    int    `json:"left"`
+	Seed    uint64 `json:"seed"`
+	Millis  int    `json:"millis"`
+}
+
+func doPressure(jp jpressure) (finished bool) {
+	r := hx.NewRand(jp.Seed)
+	sizes := []int{chunkSize, chunkSize - 1, chunkSize / 2, chunkSize - 64, 4096*31 + 7, 4096, 100, chunkSize - 33, 64, 65, 1, chunkSize}
+	type fixed struct {
+		data    []byte
+		payload []byte
+		addr    []byte
+		bad     []byte
+	}
+	fx := make([]fixed, jp.Workers)
+	for i := range fx {
+		n := sizes[i%len(sizes)]
+		d := toyOut(r.U64(), n)
+		span := make([]byte, 8)
+		binary.LittleEndian.PutUint64(span, uint64(n))
+		a := oracleBMT(span, d)
+		b := append([]byte{}, a...)
+		b[r.Intn(32)] ^= 0x10
+		fx[i] = fixed{data: d, payload: append(span, d...), addr: a, bad: b}
+	}
+	// other users of the pool hold all but `left` trees
+	var held []*bmt.Hasher
+	got := hx.WithTimeout(10*time.Second, func() {
+		for i := 0; i < bmtpool.Capacity-jp.Left; i++ {
+			held = append(held, bmtpool.Get())
+		}
+	})
+	jc := map[string]interface{}{"kind": "pressure", "p": jp}
+	if !got {
+		run.Violate(hx.Violation{Sig: "pool:trees-missing", Detail: fmt.Sprintf("could only take %d of %d trees out of bmtpool: trees were not returned by earlier users", len(held), bmtpool.Capacity-jp.Left), Case: jc})
+	}
+	var rejected, accepted, wrongAddr, newErr, newInvalid, ops int64
+	var stop int32
+	var wg sync.WaitGroup
+	for w := 0; w < jp.Workers; w++ {
+		wg.Add(1)
+		go func(f fixed) {
+			defer wg.Done()
+			good := boson.NewChunk(boson.NewAddress(f.addr), f.payload)
+			bad := boson.NewChunk(boson.NewAddress(f.bad), f.payload)
+			for round := 0; round < 400 && (round < 4 || atomic.LoadInt32(&stop) == 0); round++ {
+				if !cac.Valid(good) {
+					atomic.AddInt64(&rejected, 1)
+				}
+				if cac.Valid(bad) {
+					atomic.AddInt64(&accepted, 1)
+				}
+				ch, err := cac.New(f.data)
+				switch {
+				case err != nil:
+					atomic.AddInt64(&newErr, 1)
+				case !bytes.Equal(ch.Address().Bytes(), f.addr):
+					atomic.AddInt64(&wrongAddr, 1)
+				case !cac.Valid(ch):
+					atomic.AddInt64(&newInvalid, 1)
+				}
+				atomic.AddInt64(&ops, 4)
+			}
+		}(fx[w])
+	}
+	time.AfterFunc(time.Duration(jp.Millis)*time.Millisecond, func() { atomic.StoreInt32(&stop, 1) })
+	finished = hx.WithTimeout(time.Duration(jp.Millis)*time.Millisecond+45*time.Second, wg.Wait)
+	atomic.StoreInt32(&stop, 1)
+	for _, h := range held {
+		bmtpool.Put(h)
+	}
+	n := atomic.LoadInt64(&ops)
+	run.OracleChecked(int(n))
+	run.HistN("pressure.ops", int(n))
+	allOK := finished
+	if !finished {
+		run.Violate(hx.Violation{Sig: "pool:hang", Detail: fmt.Sprintf("%d goroutines creating/validating chunks with %d free tree(s) did not finish (%d operations completed)", jp.Workers, jp.Left, n), Case: jc})
+	}
+	report := func(cnt int64, sig, what string) {
+		if cnt != 0 {
+			allOK = false
+			run.Violate(hx.Violation{Sig: sig, Detail: fmt.Sprintf("%s: %d of %d concurrent operations (%d goroutines, %d free tree(s))", what, cnt, n, jp.Workers, jp.Left), Case: jc, Impl: cnt, Want: 0})
+		}
+	}
+	report(atomic.LoadInt64(&rejected), "pool:concurrent-valid-chunk-rejected", "cac.Valid returned false for a chunk whose address is the BMT hash of its payload")
+	report(atomic.LoadInt64(&accepted), "pool:concurrent-invalid-chunk-accepted", "cac.Valid returned true for a chunk with an altered address")
+	report(atomic.LoadInt64(&wrongAddr), "pool:concurrent-new-wrong-address", "cac.New returned an address different from the BMT hash")
+	report(atomic.LoadInt64(&newErr), "pool:concurrent-new-error", "cac.New failed on in-range data")
+	report(atomic.LoadInt64(&newInvalid), "pool:concurrent-new-result-not-valid", "Valid(New(data)) = false")
+	run.AddCase(hx.CoqApp("CPressure", hx.CoqN(uint64(jp.Workers)), hx.CoqN(uint64(jp.Left)), hx.CoqBool(allOK)), jc,
+		fmt.Sprintf("pressure|%d|%d|%d", jp.Workers, jp.Left, jp.Seed), true)
+	return finished
+}
+
 func genLen(r *hx.Rand) int {
 	switch r.Intn(12) {
 	case 0:
@@ -353,6 +460,15 @@ func main() {
 	r := run.R
 	if run.Replay != "" {
 		var jc jcase
+		var probe struct {
+			Kind string    `json:"kind"`
+			P    jpressure `json:"p"`
+		}
+		if err := run.ReadReplay(&probe); err == nil && probe.Kind == "pressure" {
+			doPressure(probe.P)
+			run.Finish()
+			return
+		}
 		if err := run.ReadReplay(&jc); err != nil {
 			panic(err)
 		}
@@ -490,6 +606,10 @@ func main() {
 		if bytes.Equal(qb[:len(d)], d) && qb[len(d)] == 0 {
 			doValid(jcase{Kind: "valid", P: q, Addr: hx.Hex(addr), Coq: n <= 400}, "payload-zero-extended")
 		}
+	}
+	// pool pressure, last: one free tree, then two
+	if doPressure(jpressure{Workers: 8, Left: 1, Seed: r.U64(), Millis: run.N(1500, 6000)}) {
+		doPressure(jpressure{Workers: 12, Left: 2, Seed: r.U64(), Millis: run.N(1000, 6000)})
 	}
 	run.Finish()
 }
